@@ -273,6 +273,7 @@ impl WireLens {
         match scn.kind.as_str() {
             "roundtrip" => self.roundtrip(idx, scn, out),
             "garbage" => self.garbage(idx, scn, out),
+            "messages" => self.messages(idx, scn, out),
             k => Err(format!("unknown kind {k}")),
         }
     }
@@ -299,6 +300,119 @@ impl WireLens {
                                  "sdk_valid":sdk_valid}));
             }
         }
+        Ok(())
+    }
+
+    /// Response fidelity of polls: messages with boundary payload lengths (from 1 byte), with and without headers of every
+    /// kind, explicit and server-assigned ids, are sent over TCP and HTTP and polled back over both in every window
+    /// (offset, count) - so every message is, among others, the LAST one of a response - and compared with what was sent.
+    fn messages(&self, idx: usize, scn: &Scenario, out: &mut TraceWriter) -> Result<(), String> {
+        use iggy::client::Client as _;
+        let dir = format!("{}/d{}", self.work, idx);
+        let _ = std::fs::remove_dir_all(&dir);
+        std::fs::create_dir_all(&dir).map_err(|e| e.to_string())?;
+        let config = srv::build_config(&dir, &scn.cfg, srv::ENC_KEY_A);
+        let inc = srv::start(config, &scn.cfg, true)?;
+        let rt = &inc.rt;
+        let tcp = rt.block_on(srv::tcp_root(inc.tcp))?;
+        let http = rt.block_on(srv::http_root(inc.http.unwrap()))?;
+        let s1 = Identifier::numeric(1).unwrap();
+        let t1 = Identifier::numeric(1).unwrap();
+        rt.block_on(async {
+            tcp.create_stream("vstream", Some(1)).await.map_err(|e| e.to_string())?;
+            tcp.create_topic(&s1, "vtopic", 1, CompressionAlgorithm::None, None, Some(1), IggyExpiry::NeverExpire, MaxTopicSize::Unlimited).await.map_err(|e| e.to_string())?;
+            Ok::<(), String>(())
+        })?;
+        out.emit(&json!({"ev":"reset","sc":idx,"id":scn.id,"kind":"messages"}));
+        let mut rng = Rng(scn.seed ^ 0x9e55);
+        fn fnv(data: &[u8]) -> u64 {
+            let mut h: u64 = 0xcbf29ce484222325;
+            for b in data {
+                h ^= *b as u64;
+                h = h.wrapping_mul(0x100000001b3);
+            }
+            h % 1_000_000_007
+        }
+        fn hdigest(h: &Option<HashMap<HeaderKey, HeaderValue>>) -> (u64, u64) {
+            match h {
+                None => (0, 0),
+                Some(m) => {
+                    let mut items: Vec<String> = m.iter().map(|(k, v)| format!("{}={:?}:{:?}", k.as_str(), v.kind, v.value)).collect();
+                    items.sort();
+                    (m.len() as u64, fnv(items.join("|").as_bytes()))
+                }
+            }
+        }
+        let lens = [1usize, 1, 2, 3, 4, 5, 7, 8, 9, 15, 16, 17, 31, 32, 33, 63, 64, 65, 127, 128, 255, 256, 257, 1000, 4096];
+        let total = scn.per_type.max(8) as usize;
+        // expected digest per offset: [offset, explicit id (0: server-assigned), payload length, payload hash, header count, header hash]
+        let mut expect: Vec<Vec<u64>> = vec![];
+        while expect.len() < total {
+            let k = 1 + rng.below(4) as usize;
+            let mut msgs = vec![];
+            for _ in 0..k {
+                let n = if rng.chance(2, 3) { lens[rng.below(lens.len() as u64) as usize] } else { 1 + rng.below(300) as usize };
+                let payload: Vec<u8> = (0..n).map(|_| rng.next() as u8).collect();
+                let hs = if rng.chance(1, 2) { None } else { headers(&mut rng) };
+                let id: u128 = if rng.chance(1, 2) { 0 } else { 1 + rng.next() as u128 };
+                let (hc, hh) = hdigest(&hs);
+                expect.push(vec![expect.len() as u64, (id % 1_000_000_007) as u64, n as u64, fnv(&payload), hc, hh]);
+                msgs.push(Message::new(if id == 0 { None } else { Some(id) }, Bytes::from(payload), hs));
+            }
+            let via_http = rng.chance(1, 3);
+            let r = rt.block_on(async {
+                if via_http {
+                    http.send_messages(&s1, &t1, &Partitioning::partition_id(1), &mut msgs).await
+                } else {
+                    tcp.send_messages(&s1, &t1, &Partitioning::partition_id(1), &mut msgs).await
+                }
+            });
+            if let Err(e) = r {
+                return Err(format!("send failed: {e}"));
+            }
+        }
+        let cons = Consumer::new(Identifier::numeric(7).unwrap());
+        let n = expect.len() as u64;
+        let mut i = 0u64;
+        let mut windows: Vec<(u64, u32)> = vec![(0, n as u32), (0, (n + 10) as u32)];
+        for o in 0..n {
+            for c in [1u32, 2, 3] {
+                windows.push((o, c));
+            }
+        }
+        for (o, c) in windows {
+            for transport in ["tcp", "http"] {
+                i += 1;
+                let r = rt.block_on(async {
+                    if transport == "tcp" {
+                        tcp.poll_messages(&s1, &t1, Some(1), &cons, &PollingStrategy::offset(o), c, false).await
+                    } else {
+                        http.poll_messages(&s1, &t1, Some(1), &cons, &PollingStrategy::offset(o), c, false).await
+                    }
+                });
+                let want: Vec<Vec<u64>> = expect.iter().skip(o as usize).take(c as usize).cloned().collect();
+                match r {
+                    Ok(pm) => {
+                        let got: Vec<Vec<u64>> = pm.messages.iter().map(|m| {
+                            let (hc, hh) = hdigest(&m.headers);
+                            let exp_id = expect.get(m.offset as usize).map(|e| e[1]).unwrap_or(0);
+                            // a server-assigned id cannot be predicted: it is compared only when the sender chose it
+                            vec![m.offset, if exp_id == 0 { 0 } else { (m.id % 1_000_000_007) as u64 }, m.payload.len() as u64, fnv(&m.payload), hc, hh]
+                        }).collect();
+                        out.emit(&json!({"ev":"pollback","sc":idx,"i":i,"transport":transport,"o":o,"c":c,"res":"ok","want":want,"got":got,
+                                         "cur":pm.current_offset,"cur_want":n - 1}));
+                    }
+                    Err(e) => {
+                        out.emit(&json!({"ev":"pollback","sc":idx,"i":i,"transport":transport,"o":o,"c":c,"res":crate::util::err_class(&e),"want":want,"got":[],
+                                         "cur":0,"cur_want":n - 1}));
+                    }
+                }
+            }
+        }
+        drop(tcp);
+        drop(http);
+        let _ = srv::stop(inc, false);
+        let _ = std::fs::remove_dir_all(&dir);
         Ok(())
     }
 
@@ -342,7 +456,8 @@ impl WireLens {
             // a raw connection, optionally logged in first (garbage "at any point of a session")
             let logged_in = rng.chance(1, 2);
             let mut sock = std::net::TcpStream::connect(inc.tcp).map_err(|e| e.to_string())?;
-            sock.set_read_timeout(Some(std::time::Duration::from_millis(300))).ok();
+            // an answer that IS expected is waited for generously (a loaded machine must not look like a silent server)
+            sock.set_read_timeout(Some(std::time::Duration::from_secs(30))).ok();
             if logged_in {
                 let login = iggy::users::login_user::LoginUser { username: "iggy".into(), password: "iggy".into(), version: None, context: None };
                 let f = frame(&login);
@@ -351,10 +466,12 @@ impl WireLens {
                 b.put_slice(&f);
                 sock.write_all(&b).ok();
                 let mut hdr = [0u8; 8];
-                let _ = sock.read_exact(&mut hdr);
+                let ok = sock.read_exact(&mut hdr).is_ok() && u32::from_le_bytes([hdr[0], hdr[1], hdr[2], hdr[3]]) == 0;
                 let l = u32::from_le_bytes([hdr[4], hdr[5], hdr[6], hdr[7]]) as usize;
-                let mut body = vec![0u8; l];
-                let _ = sock.read_exact(&mut body);
+                let mut body = vec![0u8; l.min(1 << 20)];
+                if !ok || sock.read_exact(&mut body).is_err() {
+                    return Err("raw login on the garbage connection failed".into());
+                }
             }
             let kind = ["bad_len_short", "bad_len_long", "unknown_code", "truncated_payload", "random_body", "zero_len", "huge_len_small_body", "valid_code_empty"][rng.below(8) as usize];
             let mut b = BytesMut::new();
@@ -378,6 +495,8 @@ impl WireLens {
                 SC::from_bytes(Bytes::from(body[..declared].to_vec())).map(|c| c.validate().is_ok()).unwrap_or(false)
             })).unwrap_or(false);
             sock.write_all(&b).ok();
+            // the server keeps waiting for the rest of an incomplete frame: "no answer" is then the expected outcome
+            sock.set_read_timeout(Some(if incomplete { std::time::Duration::from_millis(300) } else { std::time::Duration::from_secs(30) })).ok();
             let mut hdr = [0u8; 8];
             let outcome = match sock.read_exact(&mut hdr) {
                 Ok(()) => {
